@@ -25,6 +25,7 @@ const (
 	SBuf  // reference to a byte buffer / string builder; content in env under Rec
 	SScan // reference to a bufio.Scanner ghost record
 	SNil
+	SLL // [][]string of a FindAll*: T = first element (SL), Rec = count term
 	SOpaque
 )
 
@@ -477,6 +478,8 @@ func sortOf(t types.Type) Sort {
 			return SIL
 		case SStr:
 			return SSL
+		case SSL:
+			return SLL
 		}
 		return SOpaque
 	case *types.Pointer:
